@@ -7,10 +7,19 @@ import json
 import numpy as np
 
 
+SIG_DIGITS = None  # set to an int to round floats (states equal up to round-off are merged)
+
+
+def _rnd(x):
+    if SIG_DIGITS is None or x == 0 or not np.isfinite(x):
+        return float(x)
+    return float(f"{x:.{SIG_DIGITS}g}")
+
+
 def _arr(a):
     a = np.asarray(a)
     if a.dtype.kind == "f":
-        return [None if np.isnan(x) else float(x) for x in a.ravel().tolist()] + [list(a.shape)]
+        return [None if np.isnan(x) else _rnd(x) for x in a.ravel().tolist()] + [list(a.shape)]
     if a.dtype.kind in "iub":
         return a.ravel().tolist() + [list(a.shape)]
     return [str(x) for x in a.ravel().tolist()] + [list(a.shape)]
